@@ -157,6 +157,14 @@ def build(harnesses, tag, extra=(), ndebug=True, per_tu=12, opt="-O2", includes=
                 h.func = j1["functions"]["H_" + h.name]
                 h.module = j1
             else:
+                # an error in the harness unit's own preamble (the declarations this engine adds, e.g. the undefined explicit
+                # specialisations that keep numeric helpers opaque) is a failure of the engine, not a fact about the library
+                npre = includes.count("\n")
+                import re as _re
+                first = next((ln for ln in err1.split("\n") if ": error:" in ln), "")
+                m_ = _re.match(r"(.*tu_[\w]+\.cc):(\d+):\d+: error:", first)
+                if m_ and int(m_.group(2)) <= npre:
+                    raise AnalysisBroken("the analysis harness preamble does not compile against this tree (%s): the engine's own declarations need adjusting" % first.split(": error:")[1].strip()[:160])
                 h.error = err1
                 locs = []
                 for ln in err1.split("\n"):
